@@ -501,29 +501,49 @@ Proof.
 Qed.
 
 (* ---------------- get_trace on a 2D file ---------------- *)
-(* the 2D branch of get_trace, common to all four (min_sample_id, max_sample_id) shapes: THE SAMPLE WINDOW IS IGNORED *)
-Definition gt2d_body (H : hdr) (index : Z) : outcome arrv :=
+(* the effective sample window of get_trace(index, min_sample_id, max_sample_id): None = from the start / to the end *)
+Definition win_lo (lo : option Z) : Z := match lo with Some l => l | None => 0 end.
+Definition win_hi (H : hdr) (hi : option Z) : Z := match hi with Some h => h | None => rd_n_samples H end.
+
+(* the 2D branch of get_trace, common to all four (min_sample_id, max_sample_id) shapes *)
+Definition gt2d_body (H : hdr) (index lo hi : Z) : outcome arrv :=
   if (negb ((0 <=? index) && (index <? (rd_tracecount H)))) then Raise IndexErr
+  else if (negb ((0 <=? lo) && (lo <? hi) && (hi <=? (rd_n_samples H)))) then Raise IndexErr
   else if ((rd_blockshape1 H) =? 4) then
     bind (ld_read_and_decompress_trace_range H ((rd_blockshape1 H) * (index / (rd_blockshape1 H)))
             (((rd_blockshape1 H) * (index / (rd_blockshape1 H))) + (rd_blockshape1 H)))
-         (fun r3 => a_slice r3 [SIdx (index mod (rd_blockshape1 H)); SRng 0 (rd_n_samples H)])
+         (fun r3 => a_slice r3 [SIdx (index mod (rd_blockshape1 H)); SRng lo hi])
   else
     bind (rd_read_subplane H ((rd_blockshape1 H) * (index / (rd_blockshape1 H)))
             (((rd_blockshape1 H) * (index / (rd_blockshape1 H))) + (rd_blockshape1 H)) 0 (rd_n_samples H) true)
-         (fun r5 => a_slice r5 [SIdx (index mod (rd_blockshape1 H)); SRng 0 (rd_n_samples H)]).
+         (fun r5 => a_slice r5 [SIdx (index mod (rd_blockshape1 H)); SRng lo hi]).
 
-Lemma get_trace_2d_unfold mask_nth i lo hi ov : rd_get_trace mask_nth H i lo hi ov = gt2d_body H i.
-Proof. unfold rd_get_trace, gt2d_body. rewrite (q_is2d H F). destruct lo, hi; reflexivity. Qed.
+Lemma get_trace_2d_unfold mask_nth i lo hi ov :
+  rd_get_trace mask_nth H i lo hi ov = gt2d_body H i (win_lo lo) (win_hi H hi).
+Proof. unfold rd_get_trace, gt2d_body, win_lo, win_hi. rewrite (q_is2d H F). destruct lo, hi; reflexivity. Qed.
+
+(* a window that is not 0 <= lo < hi <= n_samples is refused before any read *)
+Lemma get_trace_2d_window_oob mask_nth i lo hi ov : 0 <= i < s_ntr H ->
+  ~ (0 <= win_lo lo < win_hi H hi /\ win_hi H hi <= s_ns H) ->
+  rd_get_trace mask_nth H i lo hi ov = Raise IndexErr.
+Proof.
+  intros Hi O. rewrite get_trace_2d_unfold. unfold gt2d_body. rewrite (q_ntr H F).
+  replace ((0 <=? i) && (i <? s_ntr H)) with true by lia. cbn [negb]. cbv iota.
+  rewrite (q_ns H F) in *. set (a := win_lo lo) in *. set (b := win_hi H hi) in *.
+  replace ((0 <=? a) && (a <? b) && (b <=? s_ns H)) with false by lia. reflexivity.
+Qed.
 
 Lemma get_trace_2d_fast mask_nth i lo hi ov : s_bs1 H = 4 -> 0 <= i < s_ntr H ->
-  exists v, rd_get_trace mask_nth H i lo hi ov = Return v /\ av_shape v = [s_ns H] /\
-    (forall z, 0 <= z < s_ns H -> av_cell v [z] = spec_cell2 H i z) /\
+  0 <= win_lo lo < win_hi H hi -> win_hi H hi <= s_ns H ->
+  exists v, rd_get_trace mask_nth H i lo hi ov = Return v /\ av_shape v = [win_hi H hi - win_lo lo] /\
+    (forall z, 0 <= z < win_hi H hi - win_lo lo -> av_cell v [z] = spec_cell2 H i (win_lo lo + z)) /\
     av_reads v = [(4096 * (i / 4 * nbz2 H), 4096 * nbz2 H)].
 Proof.
-  intros B4 Hi. rewrite get_trace_2d_unfold. unfold gt2d_body.
+  intros B4 Hi Hw Hw1. rewrite get_trace_2d_unfold. unfold gt2d_body.
+  set (a := win_lo lo) in *. set (b := win_hi H hi) in *.
   rewrite (q_ntr H F), (q_bs1 H F), (q_ns H F), B4.
   replace ((0 <=? i) && (i <? s_ntr H)) with true by lia. cbn [negb]. cbv iota.
+  replace ((0 <=? a) && (a <? b) && (b <=? s_ns H)) with true by lia. cbn [negb]. cbv iota.
   change (4 =? 4) with true. cbv iota.
   pose proof (Z.div_mod i 4 ltac:(lia)) as DM. pose proof (Z.mod_pos_bound i 4 ltac:(lia)) as MB.
   assert (G0 : 0 <= i / 4) by (apply Z.div_pos; lia).
@@ -531,10 +551,10 @@ Proof.
   rewrite Er. cbn [bind]. unfold a_slice. rewrite Sr. cbn [subs_ok slice_shape].
   replace ((- (4) <=? i mod 4) && (i mod 4 <? 4) && true) with true by lia. cbn [negb]. cbv iota.
   destruct (g_PZ H F) as (PZ1 & _ & _ & _). pose proof (g_ns H F) as NS.
-  rewrite !norm_bound_in by lia. rewrite Z.sub_0_r. replace (Z.max 0 (s_ns H)) with (s_ns H) by lia.
+  rewrite !norm_bound_in by lia. replace (Z.max 0 (b - a)) with (b - a) by lia.
   eexists. split; [reflexivity|]. cbn [av_shape av_cell av_reads]. split; [reflexivity|]. split.
   - intros z Hz. rewrite in_shape1 by lia. cbn [slice_index].
-    replace (i mod 4 <? 0) with false by lia. rewrite !norm_bound_in by lia. rewrite Z.add_0_l.
+    replace (i mod 4 <? 0) with false by lia. rewrite !norm_bound_in by lia.
     rewrite Cr by lia. f_equal. lia.
   - exact Rr.
 Qed.
@@ -543,13 +563,16 @@ Lemma zrange_single a : zrange a (a + 1) = [a].
 Proof. unfold zrange. replace (a + 1 - a) with 1 by lia. reflexivity. Qed.
 
 Lemma get_trace_2d_general mask_nth i lo hi ov : s_bs1 H <> 4 -> 0 <= i < s_ntr H ->
-  exists v, rd_get_trace mask_nth H i lo hi ov = Return v /\ av_shape v = [s_ns H] /\
-    (forall z, 0 <= z < s_ns H -> av_cell v [z] = spec_cell2 H i z) /\
+  0 <= win_lo lo < win_hi H hi -> win_hi H hi <= s_ns H ->
+  exists v, rd_get_trace mask_nth H i lo hi ov = Return v /\ av_shape v = [win_hi H hi - win_lo lo] /\
+    (forall z, 0 <= z < win_hi H hi - win_lo lo -> av_cell v [z] = spec_cell2 H i (win_lo lo + z)) /\
     av_reads v = map (fun z => (4096 * (i / s_bs1 H * nbz2 H + z), 4096)) (zrange 0 (nbz2 H)).
 Proof.
-  intros B4 Hi. rewrite get_trace_2d_unfold. unfold gt2d_body.
+  intros B4 Hi Hw Hw1. rewrite get_trace_2d_unfold. unfold gt2d_body.
+  set (a := win_lo lo) in *. set (b := win_hi H hi) in *.
   rewrite (q_ntr H F), (q_bs1 H F), (q_ns H F).
   replace ((0 <=? i) && (i <? s_ntr H)) with true by lia. cbn [negb]. cbv iota.
+  replace ((0 <=? a) && (a <? b) && (b <=? s_ns H)) with true by lia. cbn [negb]. cbv iota.
   replace (s_bs1 H =? 4) with false by lia. cbv iota.
   pose proof (g_bs1 H F) as B1. pose proof (g_bs2 H F) as B2. pose proof (g_ns H F) as NS.
   destruct (g_PT H F) as (PT1 & PTm & _ & _). destruct (g_PZ H F) as (PZ1 & _ & _ & _).
@@ -565,10 +588,10 @@ Proof.
   replace (s_bs1 H * G + s_bs1 H - s_bs1 H * G) with (s_bs1 H) in * by lia. rewrite Z.sub_0_r in *.
   replace ((- s_bs1 H <=? i mod s_bs1 H) && (i mod s_bs1 H <? s_bs1 H) && true) with true by lia.
   cbn [negb]. cbv iota.
-  rewrite !norm_bound_in by lia. rewrite Z.sub_0_r. replace (Z.max 0 (s_ns H)) with (s_ns H) by lia.
+  rewrite !norm_bound_in by lia. replace (Z.max 0 (b - a)) with (b - a) by lia.
   eexists. split; [reflexivity|]. cbn [av_shape av_cell av_reads]. split; [reflexivity|]. split.
   - intros z Hz. rewrite in_shape1 by lia. cbn [slice_index].
-    replace (i mod s_bs1 H <? 0) with false by lia. rewrite !norm_bound_in by lia. rewrite Z.add_0_l.
+    replace (i mod s_bs1 H <? 0) with false by lia. rewrite !norm_bound_in by lia.
     rewrite Cr by lia. f_equal; lia.
   - rewrite Rr.
     assert (D0 : s_bs1 H * G / s_bs1 H = G) by (rewrite Z.mul_comm; apply Z_div_mult; lia).
@@ -581,6 +604,9 @@ Proof.
     unfold nbz2. rewrite PD. reflexivity.
 Qed.
 
+(* without a window: the whole trace *)
+Lemma win_none : win_lo None = 0 /\ win_hi H None = s_ns H.
+Proof. split; [reflexivity | apply (q_ns H F)]. Qed.
 
 (* ---------------- what the reader reports, and the refusals ---------------- *)
 Lemma counts_2d : rd_tracecount H = s_ntr H /\ rd_n_samples H = s_ns H /\ rd_init H = Return tt.
